@@ -38,6 +38,18 @@ check(
     "DESIGN.md section 4 C07", engine="E5 sigs",
 )
 
+check(
+    "C08", "exploration",
+    "Hypothesis-generated pools of near-colliding values from a recursive typed universe; each value is rebuilt and hashed "
+    "(md5+sha1) in four persistent interpreters with different PYTHONHASHSEED, under drawn insertion permutations and with "
+    "freshly built strings - all digests must agree - and every pair of the pool is compared against an independent "
+    "canonical form (equal canon <=> equal digest).  Random search, no exhaustiveness claimed.",
+    "The canonical form defines value identity (type-tagged, order-insensitive); aliasing of non-string sub-objects, NaN as "
+    "key/element and numpy values are outside the generated domain; digests are compared, pre-image resistance is not the claim.",
+    "Hypothesis generated-input search; metamorphic (permutation / hash-seed / process) and all-pairs differential oracle vs canonical form",
+    "DESIGN.md section 4 C08", engine="E4 values",
+)
+
 NOT_YET = "check not built yet in this session (work in progress; see DESIGN.md section 4 for the planned generator and oracle)"
 
 
@@ -55,6 +67,8 @@ def main():
             "add_only": True,
         },
         "engines": [
+            {"name": "E4 values", "path": "vf/engines/values.py", "serves_properties": ["C08", "C03", "C14", "C02", "C06"],
+             "kind_free_text": "typed value-spec universe, builders, canonical form, alias-aware deep equality, strategies"},
             {"name": "E5 sigs", "path": "vf/engines/sigs.py", "serves_properties": ["C07", "C02", "C06"],
              "kind_free_text": "signature / call-shape enumerator and Hypothesis strategies"},
         ],
